@@ -165,6 +165,50 @@ func (a *agent) Tick() bool {
 	return progress
 }
 
+type portEv struct {
+	port int
+	key  [2]uint64
+}
+
+// fifoThroughSwitches: for every switch and every (input port, output port) pair the flits
+// that took that way left in the order they arrived.
+func fifoThroughSwitches(recv, send map[int][]portEv) bool {
+	for si, rs := range recv {
+		inOf := map[[2]uint64]int{}
+		for _, e := range rs {
+			inOf[e.key] = e.port
+		}
+		outOf := map[[2]uint64]int{}
+		for _, e := range send[si] {
+			outOf[e.key] = e.port
+		}
+		type way struct{ in, out int }
+		arr, dep := map[way][][2]uint64{}, map[way][][2]uint64{}
+		for _, e := range rs {
+			if o, ok := outOf[e.key]; ok {
+				arr[way{e.port, o}] = append(arr[way{e.port, o}], e.key)
+			}
+		}
+		for _, e := range send[si] {
+			if i, ok := inOf[e.key]; ok {
+				dep[way{i, e.port}] = append(dep[way{i, e.port}], e.key)
+			}
+		}
+		for w, a := range arr {
+			d := dep[w]
+			if len(a) != len(d) {
+				return false
+			}
+			for i := range a {
+				if a[i] != d[i] {
+					return false
+				}
+			}
+		}
+	}
+	return true
+}
+
 type hookFn func(ctx hooking.HookCtx)
 
 type hk struct{ f hookFn }
@@ -323,6 +367,7 @@ type obs struct {
 	Flits   []int    `json:"flits"`
 	Paths   [][]int  `json:"paths"`
 	Uniform bool     `json:"uniform"`
+	Fifo    bool     `json:"fifo"`
 	Ticks   uint64   `json:"end_time_ps"`
 }
 
@@ -377,10 +422,12 @@ func run(raw json.RawMessage) (hx.Case, error) {
 		devPorts = append(devPorts, a.ports)
 	}
 	o := obs{Uniform: true}
+	var c0tags []string
 	var ops []Op
 	flit := 0
 	flitsOut := map[uint64]int{}
 	pathOf := map[uint64]map[int][]int{}
+	swRecv, swSend := map[int][]portEv{}, map[int][]portEv{}
 	panicked, pmsg := hx.Try(func() {
 		ops, flit = build(in, r, devPorts)
 		for si, sw := range r.sws {
@@ -390,8 +437,16 @@ func run(raw json.RawMessage) (hx.Case, error) {
 					code = c
 				}
 			}
-			for _, p := range sw.PortsInGroup("Port") {
+			for pi, p := range sw.PortsInGroup("Port") {
 				p.AcceptHook(&hk{func(ctx hooking.HookCtx) {
+					if f, ok := ctx.Item.(packetization.Flit); ok {
+						key := [2]uint64{f.Msg.ID, uint64(f.SeqID)}
+						if ctx.Pos == messaging.HookPosPortMsgRecvd {
+							swRecv[si] = append(swRecv[si], portEv{pi, key})
+						} else if ctx.Pos == messaging.HookPosPortMsgSend {
+							swSend[si] = append(swSend[si], portEv{pi, key})
+						}
+					}
 					if ctx.Pos != messaging.HookPosPortMsgRecvd {
 						return
 					}
@@ -524,6 +579,17 @@ func run(raw json.RawMessage) (hx.Case, error) {
 		}
 		dpCoq = append(dpCoq, hx.L(l))
 	}
+	width1 := true
+	switch in.Topo {
+	case "generic":
+		width1 = in.Chan <= 1
+	case "mesh":
+		width1 = in.BW2 <= 2
+	}
+	o.Fifo = fifoThroughSwitches(swRecv, swSend)
+	if !o.Fifo {
+		c0tags = append(c0tags, "switch-reordered-flits")
+	}
 	// PCIe: the tree the calls describe (switches in creation order, then devices; parent < child)
 	var tpar, tlab, tunlab []uint64
 	if in.Topo == "pcie" && !panicked {
@@ -551,8 +617,12 @@ func run(raw json.RawMessage) (hx.Case, error) {
 	}
 	c := hx.Case{Obs: o}
 	c.Coq = hx.App("mk_case", hx.N(kind), hx.L(opsCoq), hx.L(tilesCoq), hx.L(dpCoq),
-		hx.N(uint64(max(flit, 0))), hx.N(1), hx.N(2), hx.L(msgsCoq), hx.L(tr), hx.L(flitsCoq), hx.L(pathsCoq), hx.B(o.Uniform), hx.LN(tpar), hx.LN(tlab), hx.LN(tunlab))
+		hx.N(uint64(max(flit, 0))), hx.N(1), hx.N(2), hx.L(msgsCoq), hx.L(tr), hx.L(flitsCoq), hx.L(pathsCoq), hx.B(o.Uniform), hx.LN(tpar), hx.LN(tlab), hx.LN(tunlab), hx.B(width1), hx.B(o.Fifo))
 	c.Tags = append(c.Tags, "topo:"+in.Topo)
+	c.Tags = append(c.Tags, c0tags...)
+	if width1 {
+		c.Tags = append(c.Tags, "one-lane-switch-ports")
+	}
 	if in.Topo == "mesh" {
 		three := false
 		for _, t := range in.Tiles {
